@@ -6,6 +6,30 @@ Local Open Scope N_scope.
 (** text given line by line (the harness prints multi-line texts this way) *)
 Definition nl (ls : list str) : str := join_lf ls.
 
+(** Printable-ASCII strings of the case files are written [b "…"]: a string notation that
+    elaborates to a list of [Byte.byte] constants (one constructor per character, an order of
+    magnitude cheaper for coqc to elaborate than [Ascii]-based literals), converted here. *)
+From Coq Require Import Init.Byte.
+Inductive blit := BL (l : list Byte.byte).
+Definition blit_parse (l : list Byte.byte) : blit := BL l.
+Definition blit_print (x : blit) : list Byte.byte := match x with BL l => l end.
+Declare Scope blit_scope.
+Delimit Scope blit_scope with blit.
+String Notation blit blit_parse blit_print : blit_scope.
+Definition b (x : blit) : str := match x with BL l => map Byte.to_N l end.
+Arguments b x%blit_scope.
+
+(** in "light" cases the harness erases the positions of the document (they do not reach the text) *)
+Definition P : pos := pos0.
+
+(** outcome of parsing the printed text again with the real parser: the same document modulo
+    positions (decided by the harness on the position-erased canonical dumps, so that the second
+    copy need not be shipped), a different document, or no document (error or panic) *)
+Inductive reparse (D : Type) := ReSame | ReDiff (B : D) | ReNone.
+Arguments ReSame {D}. Arguments ReDiff {D} B. Arguments ReNone {D}.
+Definition reparse_ok {D} (eq : D -> D -> bool) (A : D) (r : reparse D) : bool :=
+  match r with ReSame => true | ReDiff B => eq A B | ReNone => false end.
+
 (** ** equality of documents modulo positions *)
 Definition id_eq (a b : ident) : bool := str_eqb (iname a) (iname b).
 Definition opt_eq {A} (f : A -> A -> bool) (a b : option A) : bool := option_eqb f a b.
@@ -175,31 +199,37 @@ Inductive case :=
 | CStr (x out : str)
 (* an operation list through the real JustWriter (out) and the real JsStringWriter (js) *)
 | CWriter (ops : list wop) (out js : str)
-(* parse_type_system_document(src) = A; ops/out/js = A.print_graphql through the recording writer,
-   JustWriter, JsStringWriter; re = parse_type_system_document(out) (None: error or panic) *)
-| CTs (A : tsdoc) (ops : list wop) (out js : str) (re : option tsdoc)
+(* parse_type_system_document(src) = A; out = A.print_graphql through a JustWriter;
+   ops (recording writer) and js (JsStringWriter) only in "full" cases;
+   re = parse_type_system_document(out) *)
+| CTs (A : tsdoc) (ops : option (list wop)) (out : str) (js : option str) (re : reparse tsdoc)
 (* the same for parse_operation_document *)
-| COp (A : opdoc) (ops : list wop) (out js : str) (re : option opdoc)
+| COp (A : opdoc) (ops : option (list wop)) (out : str) (js : option str) (re : reparse opdoc)
 (* resolved schema A (TypeSystemDocument, built-ins included); stripped = remove_builtins(A) folded
-   through the configured plugins; ops/out/js = stripped.print_graphql; re = parse(out) resolved again
-   (None: error or panic) *)
-| CServer (plugin : bool) (A stripped : tsdoc) (ops : list wop) (out js : str) (re : option tsdoc)
+   through the configured plugins; ops/out/js = stripped.print_graphql; re = parse(out) *)
+| CServer (plugin : bool) (A stripped : tsdoc) (ops : list wop) (out js : str) (re : reparse tsdoc)
 (* a JavaScript template literal source and what a JavaScript engine (node) evaluates it to
    (None: SyntaxError or a substitution); cross-checks [eval_template] *)
 | CTemplate (src : str) (v : option str)
 (* the module text the real CLI wrote for serverGraphqlOutput for the resolved schema A; when node
-   is available: the value node imports from it and that value parsed by the real parser *)
-| CModule (plugin : bool) (A : tsdoc) (text : str) (node_used : bool) (v : option str) (re : option tsdoc).
+   is available: the value node imports from it and that value parsed by the real parser
+   (always shipped: [ReDiff B] or [ReNone]) *)
+| CModule (plugin : bool) (A : tsdoc) (text : str) (node_used : bool) (v : option str) (re : reparse tsdoc).
 
 Definition writers_agree (ops : list wop) (out js : str) : bool :=
   str_eqb (just_run ops) out && str_eqb (js_run ops) js.
+
+Definition doc_agree (model_ops : list wop) (ops : option (list wop)) (out : str) (js : option str) : bool :=
+  match ops with Some o => wops_eqb model_ops o | None => true end
+  && str_eqb (just_run model_ops) out
+  && match js with Some j => str_eqb (js_run model_ops) j | None => true end.
 
 Definition agree (c : case) : bool :=
   match c with
   | CStr x out => str_eqb (print_string x) out
   | CWriter ops out js => writers_agree ops out js
-  | CTs A ops out js _ => wops_eqb (print_tsdoc_ext A) ops && writers_agree ops out js
-  | COp A ops out js _ => wops_eqb (print_opdoc A) ops && writers_agree ops out js
+  | CTs A ops out js _ => doc_agree (print_tsdoc_ext A) ops out js
+  | COp A ops out js _ => doc_agree (print_opdoc A) ops out js
   | CServer plugin A stripped ops out js _ =>
       tsdoc_same (server_schema plugin A) stripped
       && wops_eqb (print_tsdoc stripped) ops && writers_agree ops out js
@@ -209,6 +239,14 @@ Definition agree (c : case) : bool :=
 
 (** the template literal evaluates to a line feed followed by what was written *)
 Definition template_ok (out js : str) : bool := option_eqb str_eqb (eval_template js) (Some (LF :: out)).
+(** "light" cases do not carry the JsStringWriter text: there the guards of [template_roundtrip]
+    are evaluated on the model's operation list instead (with [agree] and the theorem they give
+    [template_ok] for the text the real JsStringWriter would have written) *)
+Definition template_ok_opt (model_ops : list wop) (out : str) (js : option str) : bool :=
+  match js with
+  | Some j => template_ok out j
+  | None => no_cr_ops model_ops && no_split_dollar model_ops
+  end.
 
 (** the string literal [out] lexes as exactly one token whose value (as nitrogql's parser reads
     it) is [x] *)
@@ -222,7 +260,7 @@ Definition module_prefix : str := s "// generated by nitrogql" ++ [LF] ++ s "exp
 Fixpoint strip_prefix (p x : str) : option str :=
   match p, x with
   | [], _ => Some x
-  | a :: p', b :: x' => if a =? b then strip_prefix p' x' else None
+  | a :: p', c :: x' => if a =? c then strip_prefix p' x' else None
   | _, [] => None
   end.
 (** the exported value of the module text, by the specification of template literals *)
@@ -240,19 +278,23 @@ Definition holds (c : case) : bool :=
   match c with
   | CStr x out => string_ok x out
   | CWriter _ out js => template_ok out js
-  | CTs A _ out js re =>
-      template_ok out js && match re with Some B => tsdoc_eq A B | None => false end
-  | COp A _ out js re =>
-      template_ok out js && match re with Some B => opdoc_eq A B | None => false end
-  | CServer plugin A _ _ out js re =>
-      template_ok out js && match re with Some B => tsdoc_eq (spec_server_schema plugin A) B | None => false end
+  | CTs A _ out js re => template_ok_opt (print_tsdoc_ext A) out js && reparse_ok tsdoc_eq A re
+  | COp A _ out js re => template_ok_opt (print_opdoc A) out js && reparse_ok opdoc_eq A re
+  | CServer plugin A stripped _ out js re =>
+      (* [ReSame] here: the printed text parses back to [stripped] *)
+      template_ok out js
+      && match re with
+         | ReSame => tsdoc_eq (spec_server_schema plugin A) stripped
+         | ReDiff B => tsdoc_eq (spec_server_schema plugin A) B
+         | ReNone => false
+         end
   | CTemplate src v => option_eqb str_eqb (eval_template src) v
   | CModule plugin A text node_used v re =>
       if node_used then
-        match v, re with
-        | Some x, Some B =>
-            option_eqb str_eqb (module_value text) (Some x) && tsdoc_eq (spec_server_schema plugin A) B
-        | _, _ => false
+        match v with
+        | Some x => option_eqb str_eqb (module_value text) (Some x)
+                    && reparse_ok tsdoc_eq (spec_server_schema plugin A) re
+        | None => false
         end
       else match module_value text with Some _ => true | None => false end
   end.
